@@ -11,7 +11,7 @@ import os
 import vlib
 
 MODULE = os.path.join(vlib.SPEC, "props", "C21.tla")
-NSLICES = 10
+NSLICES = 8
 
 
 def enumerate_family(prop, fam, tier, seed):
@@ -52,9 +52,9 @@ def diag_sets(case, obs):
 
 def compare_case(case, obs):
     mism = vlib.compare(case["expect"], obs)
-    xd = case.get("expect_diags")
+    xd = case["expect_diags"]
     other = 0
-    if xd is not None and not mism:
+    if case["mode"] == "lsp" and not mism:
         unres, clash, other = diag_sets(case, obs)
         if unres is None:
             return [{"field": "diags", "want": "list of diagnostics", "got": obs.get("diags")}], 0
@@ -81,8 +81,6 @@ def run(prop, tier, seed):
     for c in cases:
         # transport encoding: the specification emits a file as its sequence of lines
         c["files"] = {n: "\n".join(ls) + "\n" for n, ls in c["files"].items()}
-        if c["expect"]["compile"] == "diag":
-            c["expect_diags"] = {"unresolved": c["expect"].pop("unresolved"), "clash": c["expect"].pop("clash")}
     obs, hwall = vlib.run_harness(cases, wd, jobs=12)
     other_diags = 0
     for c, o in zip(cases, obs):
@@ -118,7 +116,7 @@ def run(prop, tier, seed):
         "harness_wall_s": round(hwall, 1),
         "variants": dict(variants),
         "use_verdicts": dict(verdicts),
-        "programs_expect_ok": sum(1 for c in cases if c["expect"]["compile"] == "ok"),
+        "programs_expect_ok": sum(1 for c in cases if c["mode"] == "run"),
         "programs_expect_unresolved": sum(1 for c in cases if c["nunres"] > 0),
         "programs_expect_clash": sum(1 for c in cases if c["nclash"] > 0),
         "programs_with_for_leak_uses": sum(1 for c in cases if c["ntaint"] > 0),
